@@ -65,6 +65,8 @@ class Fn:
             d = ops[0]
         P = cxx2c.Printer(self.cname, self.types, self.calls, self.members, self.hooks, self.self_struct,
                           self.aggregates, self.stmt_hooks, self.uf_float)
+        if d.get('kind') == 'CXXConstructorDecl':
+            P.field_init = lambda field, d=d: astload.field_default_init(self.tu, d, field)
         text = P.function(d, self.ret, self.extra_params)
         if self.post:
             text = self.post(text)
